@@ -157,8 +157,8 @@ def _v64(repo, mod):
 @variant("C08", "markers-numbered-by-splitlines", TR, "C08.pipeline", "form feed shifts marker lines (the repaired defect)")
 def _v65(repo, mod):
     fn = repo.func(TR, "ModuleAstInfo._find_lines_in_source_code")
-    c = find_node(fn, lambda n: isinstance(n, ast.Call) and norm(n.func) == "re.split")
-    return replace_node(mod, c, "source_code.splitlines()")
+    t = find_stmt(fn, lambda s: isinstance(s, ast.Try))
+    return replace_node(mod, t, "return [lineno for lineno, line in enumerate(source_code.splitlines(), start=1) if pattern.search(line) is not None]")
 
 
 @variant("C08", "source-read-as-plain-utf8", "pynguin.analyses.module", "C08.read", "BOM / encoding declaration not honoured (the repaired defect)")
@@ -180,3 +180,16 @@ def _v67(repo, mod):
 def _v68(repo, mod):
     from sa.selftest.harness import text_edit
     return text_edit(mod, "end = scope_line_range(node.body[-1])[1]", "end = node.body[-1].end_lineno or start")
+
+
+@variant("C08", "marker-searched-in-raw-lines", TR, "C08.pipeline", "marker text inside a string literal excludes the line (the repaired defect)")
+def _v70(repo, mod):
+    fn = repo.func(TR, "ModuleAstInfo._find_lines_in_source_code")
+    t = find_stmt(fn, lambda s: isinstance(s, ast.Try))
+    return replace_node(mod, t, 'return [lineno for lineno, line in enumerate(re.split(r"\\r\\n|\\r|\\n", source_code), start=1) if pattern.search(line) is not None]')
+
+
+@variant("C08", "tokenizer-without-universal-newlines", TR, "C08.pipeline", "bare carriage returns are not line ends for StringIO's default readline")
+def _v71(repo, mod):
+    from sa.selftest.harness import text_edit
+    return text_edit(mod, "io.StringIO(source_code, newline=None).readline", "io.StringIO(source_code).readline")
